@@ -275,22 +275,23 @@ func errName(err error) string {
 	return "err:other:" + strings.ReplaceAll(err.Error(), " ", "_")
 }
 
-func (c *PCluster) NewTerm(i int, term int64) string {
+func (c *PCluster) newTermRaw(i int, req *proto.NewTermRequest) (*proto.NewTermResponse, error) {
 	n := c.Nodes[i]
-	req := &proto.NewTermRequest{Namespace: constant.DefaultNamespace, Shard: Shard, Term: term, Options: &proto.NewTermOptions{EnableNotifications: true}}
-	var res *proto.NewTermResponse
-	var err error
 	if f, ferr := n.dirc.GetFollower(Shard); ferr == nil {
-		res, err = f.NewTerm(req)
+		return f.NewTerm(req)
 	} else if status.Code(ferr) != constant.CodeNodeIsNotFollower {
-		return errName(ferr)
-	} else {
-		l, lerr := n.dirc.GetOrCreateLeader(constant.DefaultNamespace, Shard)
-		if lerr != nil {
-			return errName(lerr)
-		}
-		res, err = l.NewTerm(req)
+		return nil, ferr
 	}
+	l, lerr := n.dirc.GetOrCreateLeader(constant.DefaultNamespace, Shard)
+	if lerr != nil {
+		return nil, lerr
+	}
+	return l.NewTerm(req)
+}
+
+func (c *PCluster) NewTerm(i int, term int64) string {
+	req := &proto.NewTermRequest{Namespace: constant.DefaultNamespace, Shard: Shard, Term: term, Options: &proto.NewTermOptions{EnableNotifications: true}}
+	res, err := c.newTermRaw(i, req)
 	if err != nil {
 		return errName(err)
 	}
